@@ -52,9 +52,11 @@ func checkC06(c *Ctx) {
 	c.rule("C06.R6", "bounds: every index/slice operation of run-time code that the compiler cannot prove is discharged (range index, guard entailment, or reviewed reason with re-checked requirements)", 12)
 	c.rule("C06.R7", "explicit panics reachable from the run-time API: only Stack.Pop/Peek on empty, each call entailed Size() > 0", 2)
 	c.rule("C06.R8", "after a command error the runner stays usable: the pending channel is cleared before Next returns the error (C10.R3 automaton)", 1)
+	c.rule("C06.R9", "recursion on the run path descends the (finite, immutable) syntax tree: at every call inside a cycle of the run-time call graph some argument is a proper part of the caller's corresponding parameter; a call that hands its parameters on unchanged iterates by recursion, its depth is set by the script, and the goroutine stack overflows (a fatal error no recover can stop)", 3)
 	if !m.ok(c, "C06") {
 		return
 	}
+	c06Recursion(c, m)
 	info := m.pkg.TypesInfo
 	vm := w.valueModel()
 
@@ -697,4 +699,141 @@ func fieldsMutatedInPlaceElsewhere(w *World) map[*types.Var]string {
 		}
 	}
 	return out
+}
+
+// c06Recursion: C06.R9. Cycles of the static call graph among run-time functions of the root package; each call that
+// closes a cycle must pass, for at least one parameter of tree type, an argument derived from the caller's parameter by a
+// field, index or range step (a proper sub-tree): the tree is finite and acyclic (built by the listener, immutable at run
+// time, C01.R9), so the depth is bounded by the size of the script's deepest expression. Anything else — Next(choice)
+// calling Next(choice) — recurses once per statement that yields no element.
+func c06Recursion(c *Ctx, m *runnerModel) {
+	w := c.W
+	info := m.pkg.TypesInfo
+	var fns []*Func
+	idx := map[*Func]int{}
+	for _, f := range w.FuncsIn(m.pkg) {
+		if f.Body == nil || f.Lit != nil || f.Obj == nil {
+			continue
+		}
+		rel := relTo(w.Repo, w.Fset.Position(f.Body.Pos()).Filename)
+		if !isRuntimeFile(rel) {
+			continue
+		}
+		idx[f] = len(fns)
+		fns = append(fns, f)
+	}
+	type edge struct {
+		to   *Func
+		call *ast.CallExpr
+	}
+	out := map[*Func][]edge{}
+	for _, f := range fns {
+		ast.Inspect(f.Body, func(n ast.Node) bool {
+			if call, ok := n.(*ast.CallExpr); ok {
+				if callee := calleeOf(info, call); callee != nil {
+					if g := w.byObj[originFunc(callee)]; g != nil {
+						if _, in := idx[g]; in {
+							out[f] = append(out[f], edge{g, call})
+						}
+					}
+				}
+			}
+			return true
+		})
+	}
+	// reach[f][g]: g reachable from f
+	reach := map[*Func]map[*Func]bool{}
+	for _, f := range fns {
+		seen := map[*Func]bool{}
+		var dfs func(x *Func)
+		dfs = func(x *Func) {
+			for _, e := range out[x] {
+				if !seen[e.to] {
+					seen[e.to] = true
+					dfs(e.to)
+				}
+			}
+		}
+		dfs(f)
+		reach[f] = seen
+	}
+	// classify the edges that lie on cycles: decreasing = some tree-typed argument is a proper part of a tree-typed
+	// parameter of the caller
+	type cedge struct {
+		from, to *Func
+		call     *ast.CallExpr
+		dec      bool
+		which    string
+		k        int
+	}
+	var cyc []*cedge
+	for _, f := range fns {
+		x := w.expander(f)
+		k := 0
+		for _, e := range out[f] {
+			if !(e.to == f || reach[e.to][f]) {
+				continue
+			}
+			k++
+			ce := &cedge{from: f, to: e.to, call: e.call, k: k}
+			sig := f.Sig()
+			for _, a := range e.call.Args {
+				as := x.str(a)
+				for i := 0; i < sig.Params().Len(); i++ {
+					if !isTreePtr(sig.Params().At(i).Type()) && !strings.HasPrefix(typeStr(sig.Params().At(i).Type()), "[]*tree.") {
+						continue
+					}
+					p := "$" + sig.Params().At(i).Name()
+					if strings.HasPrefix(as, p+".") || strings.HasPrefix(as, p+"[") {
+						ce.dec, ce.which = true, exprStr(a)+" (a part of "+sig.Params().At(i).Name()+")"
+					}
+				}
+			}
+			cyc = append(cyc, ce)
+		}
+	}
+	// a cycle that survives the removal of the decreasing edges never gets closer to a leaf
+	rest := map[*Func][]*cedge{}
+	for _, ce := range cyc {
+		if !ce.dec {
+			rest[ce.from] = append(rest[ce.from], ce)
+		}
+	}
+	onRestCycle := func(ce *cedge) bool {
+		seen := map[*Func]bool{}
+		var dfs func(x *Func) bool
+		dfs = func(x *Func) bool {
+			if x == ce.from {
+				return true
+			}
+			if seen[x] {
+				return false
+			}
+			seen[x] = true
+			for _, e := range rest[x] {
+				if dfs(e.to) {
+					return true
+				}
+			}
+			return false
+		}
+		return dfs(ce.to)
+	}
+	n := 0
+	for _, ce := range cyc {
+		n++
+		c.fn(ce.from)
+		key := ce.from.Name + "/recursive-call#" + itoa(ce.k)
+		switch {
+		case ce.dec:
+			c.ob("C06.R9", key, w.Pos(ce.call.Pos()), true, "descends the syntax tree: "+ce.which)
+		case !onRestCycle(ce):
+			c.ob("C06.R9", key, w.Pos(ce.call.Pos()), true, "hands its tree on unchanged, but every cycle through this call also passes a call that descends the tree")
+		default:
+			c.ob("C06.R9", key, w.Pos(ce.call.Pos()), false, "calls "+ce.to.Name+" back with nothing smaller than what it received, on a cycle that never descends the syntax tree: one stack frame per statement that yields no element, so a script that loops (a jump cycle, a counter) before its next line grows the stack without bound — a terminating script of a few million steps ends in `fatal error: stack overflow`, which no recover can turn into an error")
+		}
+	}
+	if n == 0 {
+		c.obN("C06.R9", "run-time call graph", "-", true, "no recursion among the run-time functions of the root package", false)
+	}
 }
